@@ -91,6 +91,12 @@ static void run(int me) {
             for (size_t q = 0; q < T[me].owed.size(); q++) if (T[me].owed[q] == e) { if (it == T[me].owed.end() || T[me].owed_seq[q] >= T[me].sleep_seq) it = T[me].owed.begin() + q; if (T[me].owed_seq[q] >= T[me].sleep_seq) break; }
             if (it == T[me].owed.end())
                 pmc_violation("sleep-failed-unknown-errno", "usleep(%llu) of thread %d returned -1 errno=%d but no interrupt with that errno is outstanding for it", (unsigned long long)len, me, e);
+            // "-1 with the interrupter's errno": the sleep was cut short by the FIRST interrupt issued while it lasted; a later one found
+            // the thread already woken (READY, reason pending) and ended nothing, so its errno must not replace the real reason
+            for (size_t q = 0; q < T[me].owed.size(); q++) if (T[me].owed_seq[q] >= T[me].sleep_seq) {
+                if (T[me].owed[q] != e) pmc_violation("sleep-returned-later-interrupts-errno", "usleep(%llu) of thread %d was cut short by an interrupt with errno %d but returned errno %d, that of a later interrupt which found it already woken", (unsigned long long)len, me, T[me].owed[q], e);
+                break;
+            }
             uint64_t issued = T[me].owed_seq[it - T[me].owed.begin()];
             T[me].owed_seq.erase(T[me].owed_seq.begin() + (it - T[me].owed.begin())); T[me].owed.erase(it);
             // "returns -1 exactly when it was cut short": an interrupt issued BEFORE this sleep began (target was not sleeping then)
